@@ -856,12 +856,7 @@ impl Oracle {
     /// The last byte of a packet was accepted by the transport: the broker has it.
     fn packet_completed(&mut self, c: usize, pkt: &CPacket, raw: &[u8]) {
         self.conns[c].packets += 1;
-        match pkt {
-            CPacket::Ack(a) if a.kind == AckKind::PubRel => self.obs.pubrels.push(raw.to_vec()),
-            CPacket::Ack(_) => self.obs.acks.push(raw.to_vec()),
-            CPacket::PingReq | CPacket::Auth { .. } => {}
-            _ => self.obs.requests.push(raw.to_vec()),
-        }
+        let _ = raw;
         match pkt {
             CPacket::Disconnect { .. } => self.conns[c].disconnect_done = true,
             CPacket::Publish(p) if p.qos > 0 => {
@@ -982,6 +977,17 @@ impl Oracle {
                 }
             }
             _ => {}
+        }
+    }
+
+    /// The packet has reached the broker (at the write on a pass-through transport, at the flush on
+    /// a buffering one): this is what an outside observer sees.
+    pub fn reached_broker(&mut self, pkt: &CPacket, raw: &[u8]) {
+        match pkt {
+            CPacket::Ack(a) if a.kind == AckKind::PubRel => self.obs.pubrels.push(raw.to_vec()),
+            CPacket::Ack(_) => self.obs.acks.push(raw.to_vec()),
+            CPacket::PingReq | CPacket::Auth { .. } => {}
+            _ => self.obs.requests.push(raw.to_vec()),
         }
     }
 
